@@ -150,6 +150,23 @@ def apply_edit(pkg: M.Package, rng: Rng, kind: str, only=None, only_steps=None):
         n, t, st = p.steps[i]
         p.steps[i] = (n, nt, st)
         return "widen_step %s.%s" % (p.name, n)
+    if kind == "widen_alias":
+        # the definition of a named type changes: `Id: float` -> `Id: double` (also T?, T*), wherever the name is used
+        def _w(t):
+            if isinstance(t, Prim) and t.name in WIDEN:
+                return Prim(WIDEN[t.name])
+            if isinstance(t, Opt) and isinstance(t.inner, Prim) and t.inner.name in WIDEN:
+                return Opt(Prim(WIDEN[t.inner.name]))
+            if isinstance(t, Vec) and t.length is None and isinstance(t.inner, Prim) and t.inner.name in WIDEN:
+                return Vec(Prim(WIDEN[t.inner.name]))
+            return None
+        cands = [d for d in pkg.defs() if isinstance(d, Alias) and not d.params and _w(d.type) is not None and (only is None or d.name in only)]
+        if not cands:
+            return None
+        a = rng.choice(cands)
+        old = a.type
+        a.type = _w(a.type)
+        return "widen_alias %s %r->%r" % (a.name, old, a.type)
     if kind == "make_optional":
         cands = [(r, i) for r in recs for i, (_, t) in enumerate(r.fields) if isinstance(t, Prim)]
         if not cands:
@@ -308,7 +325,7 @@ def evolve(pkg: M.Package, rng: Rng, n: int, kinds) -> tuple:
 RECORD_EDITS = ["add_optional_field", "remove_optional_field", "reorder_fields", "add_field", "remove_field", "widen_field", "make_optional", "widen_vector_field", "make_required"]
 
 
-def with_versions(pkg: M.Package, rng: Rng, n_versions: int, partial: bool, must_edit=(), order="oldest_first", p_new_protocol=0.0, layout="siblings", widen_steps=()) -> M.Package:
+def with_versions(pkg: M.Package, rng: Rng, n_versions: int, partial: bool, must_edit=(), order="oldest_first", p_new_protocol=0.0, layout="siblings", widen_steps=(), widen_aliases=()) -> M.Package:
     """Treat pkg as the oldest version; evolve it n_versions times; the newest package lists all
     its predecessors under `versions:`.  Returns the newest package.
     must_edit: names of records that each get at least one record edit in every evolution step."""
@@ -330,6 +347,12 @@ def with_versions(pkg: M.Package, rng: Rng, n_versions: int, partial: bool, must
             d = apply_edit(cur, r4, "widen_step", only_steps=tuple(r4.sample(list(widen_steps), r4.randint(1, len(widen_steps)))))
             if d:
                 l.append(d)
+        r5 = rng.fork("widenalias", i)
+        if widen_aliases and partial and r5.chance(0.5):
+            for name in r5.sample(list(widen_aliases), r5.randint(1, len(widen_aliases))):
+                d = apply_edit(cur, r5, "widen_alias", only=(name,))
+                if d:
+                    l.append(d)
         r2 = rng.fork("must", i)
         for name in must_edit:
             for _ in range(8):
